@@ -4,7 +4,6 @@ package main
 
 import (
 	"fmt"
-	"os"
 	"go/ast"
 	"go/token"
 	"go/types"
@@ -55,33 +54,31 @@ func (c *Ctx) mergeStates(states []*State) *State {
 	}
 	out := &State{assumes: base, vars: map[*types.Var]Value{}, heap: map[string]string{}, written: states[0].written, wvars: states[0].wvars,
 		defers: states[0].defers}
-	// epochs: keep the common prefix of the havoc history; every pattern havocked on only some of the paths gets a new
-	// epoch (its value differs between the paths), everything else keeps resolving lazily as before
-	common := len(states[0].epochs)
+	// keys untouched on every path are resolved lazily per path (ite over the paths) when first read
+	sameEp := true
 	for _, st := range states[1:] {
-		n := 0
-		for n < common && n < len(st.epochs) && st.epochs[n] == states[0].epochs[n] {
-			n++
+		if !sameEpochs(st.epochs, states[0].epochs) || st.lazy != states[0].lazy || st.lazyFrom != states[0].lazyFrom {
+			sameEp = false
 		}
-		common = n
 	}
-	out.epochs = append([]epochMark(nil), states[0].epochs[:common]...)
-	seenPat := map[string]bool{}
-	for _, st := range states {
-		for _, m := range st.epochs[common:] {
-			if !seenPat[m.prefix] {
-				seenPat[m.prefix] = true
-				c.nfresh++
-				if os.Getenv("GOWP_DEBUG") != "" && c.dry == 0 {
-					fmt.Fprintf(os.Stderr, "merge restamp %q id=%d\n", m.prefix, c.nfresh)
-				}
-				out.epochs = append(out.epochs, epochMark{m.prefix, c.nfresh})
-			}
+	if sameEp {
+		out.epochs, out.lazy, out.lazyFrom = states[0].epochs, states[0].lazy, states[0].lazyFrom
+	} else {
+		out.epochs = nil
+		out.lazyFrom = 0
+		var origins []*State
+		for _, st := range states {
+			cp := *st // snapshot: the caller may overwrite *st with the merged state
+			origins = append(origins, &cp)
 		}
+		out.lazy = &lazyMerge{origins: origins}
 	}
 	selv := c.fresh("sel", sInt)
 	out.assume(and(le("0", selv), lt(selv, num(int64(len(states))))))
 	guards := make([]string, len(states))
+	if out.lazy != nil && !sameEp {
+		defer func() { out.lazy.guards = guards }()
+	}
 	for i, s := range states {
 		guards[i] = eq(selv, num(int64(i)))
 		delta := s.assumes.since(base)
@@ -611,6 +608,7 @@ func (c *Ctx) havocWrites(s *State, wv map[*types.Var]bool, wh map[string]bool) 
 			continue // contents live in the heap (havocked through the heap key)
 		}
 		s.vars[v] = c.freshValue(s, v.Name(), v.Type())
+		c.assumeTyped(s, s.vars[v], v.Type()) // whatever the variable holds at the loop head was allocated before
 		if s.wvars != nil {
 			s.wvars[v] = true
 		}
